@@ -36,6 +36,19 @@ theorem tagByte_toNat (t : Tag) : t.toByte.toNat = t.toNat := by
 
 /-! ### T1: values -/
 
+theorem reads_temporal (k : TKind) (s : Bytes) (hv : validUtf8 s = true) (hl : s.length < 2 ^ 32)
+    (hc : (temporalCheck k s).toBool = true) :
+    Reads (readTemporal k) (writeString s) (.temporal k s) := by
+  unfold readTemporal
+  have := Reads.bind (g := fun s' => match temporalCheck k s' with
+      | .ok _ => (Pure.pure (BVal.temporal k s') : Reader BVal)
+      | .error .err => fail .badTemporal
+      | .error .panic => fail .panic) (Reads.string hv hl) (w2 := []) (b := .temporal k s) (by
+    cases h : temporalCheck k s with
+    | ok u => exact Reads.pure _
+    | error e => rw [h] at hc; cases hc)
+  simpa using this
+
 theorem reads_body (v : BVal) (h : v.WF) : Reads (readBody v.tag) (writeBody v) v := by
   cases v with
   | null => exact Reads.pure _
@@ -51,11 +64,7 @@ theorem reads_body (v : BVal) (h : v.WF) : Reads (readBody v.tag) (writeBody v) 
   | varchar s => exact Reads.map (Reads.string h.1 h.2) BVal.varchar
   | boolean b => exact Reads.map (Reads.bool b) BVal.boolean
   | temporal k s =>
-    cases k
-    · exact Reads.map (Reads.string h.1 h.2) (BVal.temporal .date)
-    · exact Reads.map (Reads.string h.1 h.2) (BVal.temporal .time)
-    · exact Reads.map (Reads.string h.1 h.2) (BVal.temporal .timestamp)
-    · exact Reads.map (Reads.string h.1 h.2) (BVal.temporal .interval)
+    cases k <;> exact reads_temporal _ s h.1 h.2.1 h.2.2
 
 theorem reads_value (v : BVal) (h : v.WF) : Reads readValue (writeValue v) v := by
   unfold readValue writeValue
